@@ -1,6 +1,17 @@
 // Unit range_prefixes (C03): AddressRange::to_v4_prefixes / to_v6_prefixes
 // (src/repository/resources/ipres.rs) — "range-to-prefix decomposition agrees with the
-// mathematical set, including at the ends of the number space".
+// mathematical set, including at the ends of the number space".  Both functions are proved here
+// completely (unbounded): the result is a sequence of well-formed prefixes that tiles [min, max]
+// in ascending order without gap or overlap (hence pairwise disjoint, union exactly [min, max]);
+// it is empty for min > max; the loop terminates (decreases end - start); `start += 1 << same_bits`
+// neither overflows nor shifts by the full width — also for ranges ending at the last address.
+//   to_v6_prefixes: all of the above in the 128-bit address space.
+//   to_v4_prefixes: the function reads only the upper 32 bits of min and max; the contract is stated
+//     in that 32-bit space, plus the 128-bit corollary for ranges in IPv4 representation
+//     (min padded with 96 zero bits, max with 96 one bits, as from_v4_str / the decoders build them).
+// Bit-level facts are discharged by `by (bit_vector)` lemmas (u32 and u128).  Bounded cross-checks of
+// the real `impl Iterator` results are Kani harnesses bl_v4_prefixes_kb_n4 / bl_v6_prefixes_kb_n4
+// (unit block_leaves), which also proves the std facts assumed here (u128 bit counts, Ipv4Addr <-> u32).
 use vstd::prelude::*;
 use vstd::std_specs::cmp::*;
 use vstd::std_specs::convert::*;
@@ -129,11 +140,11 @@ impl AddressRange {
             // every element is a well-formed prefix: length <= 128, host bits zero
             forall|i: int| 0 <= i < r@.len() ==> wf(#[trigger] r@[i], 128),
             self.min.0 > self.max.0 ==> r@.len() == 0,
-            self.min.0 <= self.max.0 ==> {
+            self.min.0 <= self.max.0 ==> ({
                 &&& tiles(r@, false, self.min.0 as int, self.max.0 as int)
                 &&& ascending_disjoint(r@, false)
                 &&& covers_exactly(r@, false, self.min.0 as int, self.max.0 as int)
-            },
+            }),
     //@/spec
     //@ghost begin
         let ghost min6 = self.min.0;
@@ -182,18 +193,18 @@ impl AddressRange {
             forall|i: int| 0 <= i < r@.len() ==> wf(#[trigger] r@[i], 32),
             // in the IPv4 address space (upper 32 bits, which is all the function reads):
             v4_of(self.min.0) > v4_of(self.max.0) ==> r@.len() == 0,
-            v4_of(self.min.0) <= v4_of(self.max.0) ==> {
+            v4_of(self.min.0) <= v4_of(self.max.0) ==> ({
                 &&& tiles(r@, true, v4_of(self.min.0) as int, v4_of(self.max.0) as int)
                 &&& ascending_disjoint(r@, true)
                 &&& covers_exactly(r@, true, v4_of(self.min.0) as int, v4_of(self.max.0) as int)
-            },
+            }),
             // in the 128-bit space, for a range in IPv4 representation (min padded with zeros, max with ones)
             v4_shaped(self) && self.min.0 > self.max.0 ==> r@.len() == 0,
-            v4_shaped(self) && self.min.0 <= self.max.0 ==> {
+            v4_shaped(self) && self.min.0 <= self.max.0 ==> ({
                 &&& tiles(r@, false, self.min.0 as int, self.max.0 as int)
                 &&& ascending_disjoint(r@, false)
                 &&& covers_exactly(r@, false, self.min.0 as int, self.max.0 as int)
-            },
+            }),
     //@/spec
     //@ghost begin
         broadcast use {vstd::std_specs::bits::axiom_u32_trailing_zeros, vstd::std_specs::bits::axiom_u32_leading_zeros, vstd::std_specs::bits::axiom_u32_trailing_ones};
